@@ -130,6 +130,13 @@ func c07IsNilPredicate(f *ssa.Function) bool {
 
 var c07SizeOK = map[string]string{}
 
+var c07OptionalOK = map[string]string{
+	"bytecode.callRuntimeFunction|optional member Declaration#6": "reached only for a definition marked Sandboxed; that flag is set by DefineNativeSandboxedFunction and by the data.Function literals of the runtime packages, all of which carry a Declaration (R-C11-1 reads the same literals)",
+	"data.Type.String|optional member valueType#2":               "map types are built by MapType(key, value), which always sets the value type; the nil test in this function belongs to the named-type case",
+	"data.Type.String|optional member valueType#3":               "pointer types are built by PointerType(base), which always sets the base type",
+	"data.Type.String|optional member valueType#4":               "array types are built by ArrayType(element), which always sets the element type",
+}
+
 var c07IndexOK = map[string]string{
 	// instruction operands: written by the compiler, never by the program
 	"bytecode.arrayByteCode|index 0 of value":  "the operand list of an Array instruction is built by the compiler as []any{count, kind} (compiler emits both elements whenever it emits the list form)",
@@ -563,6 +570,7 @@ func runC07(w *World, r *Report) {
 	r.Rule("R-C07-8", "a method is called on reflect.TypeOf(x) only where x has a concrete static type or was found non-nil on every path (reflect.TypeOf(nil) is a nil Type)", 10)
 	r.Rule("R-C07-9", "every make of a slice or channel whose size is computed from an integer the running program chose (data.Int of a function argument or a stack value; parameters are followed into their callers, three levels) is reachable only through a lower-bound and an upper-bound comparison of that integer, or sits under a deferred recover", 3)
 	r.Rule("R-C07-10", "a constant index, a constant slice bound, or a slice s[a:len(s)-b] into a slice or string of unknown length is behind a length test (or a prefix/suffix/emptiness test) that implies the element exists", 100)
+	r.Rule("R-C07-11", "a pointer-typed struct member that the function tests against nil somewhere is dereferenced only where a test of the same member found it non-nil (or right after it was given a fresh object)", 20)
 	r.Rule("R-C07-6", "every recover() in the repository is called directly by a function that is the target of a defer statement (a recover() in a helper recovers nothing)", 4)
 
 	var fns []*ssa.Function
@@ -909,6 +917,11 @@ func runC07(w *World, r *Report) {
 				r.Violate("R-C07-10", key, w.pos(s.instr.Pos()), "element "+sprintInt(int(s.k))+" must exist for this index or slice expression, and nothing on the way here implies the value is that long: a shorter one panics the interpreter")
 			}
 		}
+	}
+
+	// ---- R-C07-11: optional members
+	for _, fn := range fns {
+		c40OptionalMembers(w, r, fn, "R-C07-11", c07OptionalOK)
 	}
 
 	// ---- R-C07-6: a recover() that can recover
